@@ -47,6 +47,22 @@ def set_cur(ctx):
     _CUR = ctx
 
 
+class active:
+    """with active(ctx): ...  - evaluate SymNum expressions in ctx after its exploration"""
+
+    def __init__(self, ctx):
+        self.ctx = ctx
+
+    def __enter__(self):
+        self.prev = _CUR
+        set_cur(self.ctx)
+        return self.ctx
+
+    def __exit__(self, *a):
+        set_cur(self.prev)
+        return False
+
+
 # --------------------------------------------------------------------------
 # kinds
 KBOOL, KINT, KFLOAT = 0, 1, 2
